@@ -18,7 +18,7 @@ equations that tie the mutual evaluator to these functions.
 
 Proved: lookup_nearest, assign_nearest_or_local, let_local, inner_not_visible_outside, call_fresh_locals,
 closure_sees_definition_scope, call_does_not_write_enclosing_frames, args_missing_default_extra_ignored,
-prims_by_value_containers_by_ref, read_after_write (cell) and read_after_write_path (setValue / getValue), len_add_del_model, 
+prims_by_value_containers_by_ref, read_after_write (cell) and read_after_write_path (setValue / getValue), 
 new_has_all_template_props (transitive), own_property_wins, method_this, init_once_with_args,
 init_once_with_args_and_supers, init_reads_super, addSuperClasses_cycle.  Hypotheses are listed with each theorem.
 -/
